@@ -26,6 +26,9 @@ def run(tier):
     muts = sorted(u.values(), key=vlib.canon_hash)
     reps = 3 if quick else 25
     scen = [{"base": {"cat": s["cat"]}, "mut": s["mut"], "rep": r} for r in range(reps) for s in muts]
+    # the application-layer classes as entry points of their own (nothing below UDP is dissected automatically)
+    scen += [{"base": {"cat": c, "sub": True}, "mut": m, "rep": r} for r in range(reps) for c in (1, 2, 3, 4, 5, 45, 52, 53)
+             for m in ({"k": "none", "layer": 0, "n": 0}, {"k": "trail", "layer": 0, "n": 1}, {"k": "trail", "layer": 0, "n": 4})]
     shapes, g2 = vlib.tlc_generate("wire/WireGen", "WireGen.cfg", timeout=900)
     u = {}
     for s in shapes:
